@@ -151,6 +151,10 @@ fn main() {
                 Err(_) => props::diag::probe(),
             };
             *pool::SHARD.lock().unwrap() = Some((i, n));
+            if std::env::var("VERIF_WALL_CAP").is_err() {
+                // per-(configuration, image) wall cap of the explorers: generous in the thorough tier
+                std::env::set_var("VERIF_WALL_CAP", if tier == "thorough" { "2400" } else { "120" });
+            }
             // panics inside the library are observations (caught); panics in the harness itself are
             // machinery failures and must be visible
             std::panic::set_hook(Box::new(|info| {
